@@ -697,25 +697,33 @@ def apalache_refinement(tier):
     return info
 
 
-def tlaps_proof():
-    """C05 / C03 / C01 / C07, unbounded: TLAPS machine-checks that the representation invariant (len <= Cap,
-    keys pairwise different) is inductive for ANY capacity, key universe and slot-sequence length
-    (Init => Inv, Inv /\\ [Next]_slots => Inv', hence []Inv), and that every slot-level step refines the
-    ideal set of keys (spec/MapProof.tla) and the ideal key-value map (spec/MapProofKV.tla); the loop invariant
-    of retain and its postcondition (spec/MapProofRetain.tla); stored-key identity (spec/MapProofId.tla, C12)."""
+TLAPS_MODULES = {
+    "map": ("MapProof.tla", "MapProofKV.tla", "MapProofRetain.tla", "MapProofId.tla"),
+    "alg": ("MapProofAlg.tla",),
+}
+
+
+def tlaps_proof(group="map"):
+    """Unbounded, machine-checked by TLAPS.  group "map" (C05 / C03 / C01 / C07 / C12): the representation
+    invariant (len <= Cap, keys pairwise different) is inductive for ANY capacity, key universe and slot-sequence
+    length (Init => Inv, Inv /\\ [Next]_slots => Inv', hence []Inv); every slot-level step refines the ideal set
+    of keys (spec/MapProof.tla) and the ideal key-value map (spec/MapProofKV.tla); the loop invariant of retain
+    and its postcondition (spec/MapProofRetain.tla); stored-key identity (spec/MapProofId.tla).
+    group "alg" (C08): the filtered-slot-iterator loop behind difference / intersection / union /
+    symmetric_difference yields exactly the mathematical result, without repeats (spec/MapProofAlg.tla)."""
     d = os.path.join(WORK, "tlaps-%d" % os.getpid())
     shutil.rmtree(d, ignore_errors=True)
     os.makedirs(d)
     out = []
     shutil.copy(os.path.join(SPEC, "MapProofKV.tla"), d)       # (MapProofRetain extends it)
-    for mod in ("MapProof.tla", "MapProofKV.tla", "MapProofRetain.tla", "MapProofId.tla"):
+    for mod in TLAPS_MODULES[group]:
         shutil.copy(os.path.join(SPEC, mod), d)
         t0 = time.time()
         p = sh(["timeout", "900", "tlapm", "--threads", "8", "--cleanfp", mod], cwd=d, timeout=1000, check=False)
         m = re.search(r"All (\d+) obligations proved", p.stdout)
         if not m:
             raise ToolError("TLAPS does not prove spec/%s:\n%s" % (mod, p.stdout[-1500:]))
-        out.append({"module": "spec/" + mod, "obligations_proved": int(m.group(1)), "bound": "none (any capacity, any keys, any values)", "wall_s": round(time.time() - t0, 1)})
+        out.append({"module": "spec/" + mod, "obligations_proved": int(m.group(1)), "bound": "none (any capacity / length, any keys, any values)", "wall_s": round(time.time() - t0, 1)})
     shutil.rmtree(d, ignore_errors=True)
     return out
 
@@ -817,6 +825,8 @@ def run_check(pid, tier, seed):
         summary["apalache_disjoint"] = apalache_disjoint(tier)
     if pid == "C12":
         summary["tlaps_inductive_invariant"] = tlaps_proof()
+    if pid == "C08":
+        summary["tlaps_inductive_invariant"] = tlaps_proof("alg")
     if pid in ("C01", "C07"):
         summary["apalache_refinement"] = apalache_refinement(tier)
         summary["tlaps_inductive_invariant"] = tlaps_proof()
@@ -893,7 +903,7 @@ def main():
             os.makedirs(WORK, exist_ok=True)
             build_all(["debug", "release", "asan"])
             for f in sorted(os.listdir(SPEC)):
-                if f in ("MapProof.tla", "MapProofKV.tla", "MapProofRetain.tla", "MapProofId.tla"):      # TLAPS proof modules: parsed and checked by tlapm inside the C05 / C03 checks
+                if f.startswith("MapProof"):      # TLAPS proof modules: parsed and checked by tlapm inside the C05 / C03 checks
                     continue
                 if f in ("MapInd.tla", "MapDisj.tla", "MapRef.tla"):      # typed for Apalache (EXTENDS Apalache): checked by its own type checker
                     p = sh(["timeout", "300", "apalache-mc", "typecheck", f], cwd=SPEC, timeout=400, check=False)
